@@ -91,7 +91,8 @@ pub trait Host: Send {
     /// called at yield points; may block the calling goroutine (threads scheduler) or run
     /// pending goroutines inline (default sequential host).
     fn yield_point(&mut self, it: &mut Interp, kind: YieldKind) -> R<()>;
-    fn spawn(&mut self, it: &mut Interp, func: Arc<str>, args: Vec<V>) -> R<()>;
+    /// `callee` is a function value: `V::Func(Some(name))` or a method value `V::Bound(item, receiver)`
+    fn spawn(&mut self, it: &mut Interp, callee: V, args: Vec<V>) -> R<()>;
 }
 
 pub struct Interp {
@@ -269,6 +270,16 @@ impl Interp {
         self.frames.last_mut().unwrap()
     }
 
+    /// call a function value (named function or method value)
+    pub fn call_value(&mut self, callee: V, args: Vec<V>) -> R<Option<V>> {
+        match callee {
+            V::Func(Some(name)) => self.call_func(&name, args),
+            V::Bound(item, recv) => self.call_item(item, Some(*recv), args),
+            V::Func(None) => Err(Stop::Panic(PanicKind::NilDeref)),
+            _ => unsup("call of a value that is not a function"),
+        }
+    }
+
     pub fn call_func(&mut self, name: &str, args: Vec<V>) -> R<Option<V>> {
         let prog = self.prog.clone();
         let Some(&idx) = prog.funcs.get(name) else {
@@ -334,11 +345,14 @@ impl Interp {
                 for a in args {
                     avs.push(self.eval(a)?);
                 }
-                let V::Func(Some(name)) = fv else {
-                    return Err(Stop::Panic(PanicKind::NilDeref));
-                };
+                match &fv {
+                    V::Func(Some(_)) | V::Bound(..) => {}
+                    // `go` of a nil function value: Go panics in the spawner
+                    V::Func(None) => return Err(Stop::Panic(PanicKind::NilDeref)),
+                    _ => return unsup("go of a value that is not a function"),
+                }
                 if let Some(mut h) = self.host.take() {
-                    let r = h.spawn(self, name, avs);
+                    let r = h.spawn(self, fv, avs);
                     self.host = Some(h);
                     r?;
                 } else {
@@ -1133,7 +1147,7 @@ fn binop(op: BinOp, a: V, b: V, types: &HashMap<String, TypeDef>) -> R<V> {
 /// loop back-edge of the spawner (a legal schedule whenever goroutines do not wait for each
 /// other); goroutines still pending when main returns are discarded, as in Go.
 pub struct SeqHost {
-    pending: Vec<(Arc<str>, Vec<V>)>,
+    pending: Vec<(V, Vec<V>)>,
     pub spawned: u64,
     pub ran: u64,
 }
@@ -1155,7 +1169,7 @@ impl Host for SeqHost {
             self.ran += 1;
             // run on a fresh frame stack position; nested yields see an empty host (no re-entrancy)
             let saved = std::mem::take(&mut it.frames);
-            let r = it.call_func(&f, args);
+            let r = it.call_value(f, args);
             it.frames = saved;
             match r {
                 Ok(_) => {}
@@ -1164,9 +1178,9 @@ impl Host for SeqHost {
         }
         Ok(())
     }
-    fn spawn(&mut self, _it: &mut Interp, func: Arc<str>, args: Vec<V>) -> R<()> {
+    fn spawn(&mut self, _it: &mut Interp, callee: V, args: Vec<V>) -> R<()> {
         self.spawned += 1;
-        self.pending.push((func, args));
+        self.pending.push((callee, args));
         Ok(())
     }
 }
